@@ -17,6 +17,7 @@ macro_rules! dispatch {
         match $name {
             "drive" => $f::<engines::drive::Drive>($($args),*),
             "reverse" => $f::<engines::reverse::Reverse>($($args),*),
+            "limits" => $f::<engines::limits::Limits>($($args),*),
             other => {
                 eprintln!("unknown engine {}", other);
                 std::process::exit(2);
@@ -25,7 +26,7 @@ macro_rules! dispatch {
     };
 }
 
-const ENGINES: &[&str] = &["drive", "reverse"];
+const ENGINES: &[&str] = &["drive", "reverse", "limits"];
 
 fn info_of<E: Engine>() -> EngineInfo {
     EngineInfo { name: E::NAME, prop: E::PROP, rule: E::RULE, real: E::REAL, stub: E::STUB }
@@ -40,6 +41,7 @@ fn plan_for(prop: &str, tier: Tier) -> Vec<(&'static str, u64)> {
     let q = tier == Tier::Quick;
     match prop {
         "C15" => vec![("drive", if q { 200_000 } else { 10_000_000 })],
+        "C14" => vec![("limits", if q { 20_000 } else { 400_000 })],
         "C02" => vec![("reverse", if q { 40_000 } else { 4_000_000 })],
         _ => vec![],
     }
